@@ -271,6 +271,12 @@ func VH23b_listener() {
 	}
 	sock.Close()
 	verif.Quiesce()
+	// a listener mounted in the application's own HTTP server (handler mode) is closed like any other: its accept
+	// loop ends, the connection it accepted is closed
+	verif.Assert(verif.LiveGoroutines() == 0, "C10/ws-listener/goroutines-left-after-close")
+	if offered {
+		verif.Assert(st.Closed, "C10/ws-listener/connection-left-open-after-close")
+	}
 }
 
 // VH23c_options: option contract of the ws dialer and listener.
